@@ -369,6 +369,17 @@ def _after_instrument(u, case, tier, canary, wd, res, cmd, fn):
     # repeated with --trace to obtain the counterexample.
     doc, dt = run_cbmc(False)
     res["solver_s"] = round(dt, 2)
+    # obligations of this unit that known_findings.txt lists (under whatever property): their failure is expected on
+    # the unchanged tree and needs no counterexample - the DTLS modes of tls12_decode carry one (F9d) and their
+    # traces are the largest there are
+    known_labels = set(k.get("obligation") for k in load_known() if k.get("unit") == u["unit"])
+    def _label_of(r):
+        if u.get("plain") and r.get("description", "") in u["labels"]:
+            return r["description"]
+        m_ = re.match(r"^%s\.postcondition\.(\d+)$" % re.escape(fn), r["property"])
+        if m_ and 1 <= int(m_.group(1)) <= n_posts:
+            return u["labels"][int(m_.group(1)) - 1]
+        return None
     def _failing_other_than_canary(d):
         for e in d:
             if "result" in e:
@@ -377,13 +388,20 @@ def _after_instrument(u, case, tier, canary, wd, res, cmd, fn):
                         continue
                     if canary and (r.get("description") == "CANARY" or r["property"] == "%s.postcondition.%d" % (fn, n_posts + 1)):
                         continue
+                    if _label_of(r) in known_labels:
+                        continue
                     return True
         return False
     if _failing_other_than_canary(doc):
-        doc2, dt2 = run_cbmc(True)
+        try:
+            doc2, dt2 = run_cbmc(True)
+        except Infra as e_:
+            # the run that only adds the counterexample ran out of memory or time: the verdicts of the first run stand
+            doc2, dt2 = None, 0.0
+            res["trace_dropped"] = "counterexample run failed (%s); verdicts are those of the run without --trace" % str(e_)[:200]
         if doc2 is not None:
             doc = doc2
-        else:
+        elif "trace_dropped" not in res:
             res["trace_dropped"] = "counterexample trace larger than %d MB, not parsed" % (TRACE_JSON_LIMIT >> 20)
         res["solver_s"] = round(dt + dt2, 2)
     results = None
